@@ -5,7 +5,7 @@ import time
 from core import *
 
 PID = "C14"
-CONSTS = {"NFiles": 3, "Msgs": "{1, 2, 3, 4, 5}", "Filtered": "{3}"}
+CONSTS = {"NFiles": 3, "Msgs": "{1, 2, 3, 4, 5, 6}", "Filtered": "{3, 6}"}
 
 
 def gen(maxlen, simulate=None, seed=0):
@@ -80,7 +80,7 @@ def run(tier, seed, selftest=False, replay=None):
         "traces_validated_against_impl": nruns,
         "samples": [{"compiler": sample["compiler"], "chunks": sample["cs"], "returned": {"crash": sample["crash"], "failed": sample["failed"]}}],
         "evaluations": nruns, "distinct_nontrivial": len(streams),
-        "rule": "TLC enumerates every chunk stream (error with 5 message kinds incl. multi-line details, a filtered known-issue message and a "
+        "rule": "TLC enumerates every chunk stream (error with 6 message kinds incl. multi-line details, two messages matched by two different user filter patterns and a "
                 "message mentioning java.lang; warning; note; summary; internal stack trace) over 3 files up to length %d, and random streams "
                 "up to length 14-20; each is rendered in the javac/kotlinc/groovyc/scalac formats and analysed by the real code; "
                 "evaluations = analyses validated by TLC against the ground truth (files, per-file message order, crash classification); "
